@@ -282,6 +282,12 @@ class World:
             lname = names[cs.draw("which", len(names))]
             rec0 = self.store[lname]
             mode = rec0["mode"]
+            if rec0.get("frozen"):
+                return
+            if mode in ("plain", "zip_csv") and rec0.get("defined", True) \
+                    and cs.flip("switch_mode", 30):
+                # same name, other storage: the older sibling file stays
+                mode = "zip_csv" if mode == "plain" else "plain"
         else:
             self.nname += 1
             lname = f"f{self.nname}"
@@ -360,6 +366,11 @@ class World:
                 return
             raise Violation("write_failed", f"write_csv of {lname} in mode "
                             f"{mode} raised {e!r}", "write")
+        if rec0 is not None and rec0["mode"] != mode:
+            rec["frozen"] = True
+            rec["switched_from"] = rec0["mode"]
+            rec["older"] = rec0
+            self.ctx.hit("fault.stale_sibling_other_storage_" + rec0["mode"])
         self.store[lname] = rec
         self.wrote = True
         self.ctx.hit("probe.write_" + mode)
@@ -387,7 +398,20 @@ class World:
                 else:
                     p = Path(rec["path"])
                     variants = [p]
-                    if mode == "plain":
+                    if rec.get("switched_from") == "zip_csv":
+                        # plain file written after a compressed one: the
+                        # exact name must give the plain (latest) frame
+                        pass
+                    elif rec.get("switched_from") == "plain":
+                        # compressed file written after a plain one: the
+                        # .zip name gives the latest frame; the .csv name is
+                        # shadowed by the stale plain file (known finding)
+                        if cs.flip("shadowed_name", 50):
+                            self.read_shadowed(csvmod, lname, rec, p, opkind)
+                            self.ctx.hit("probe.read_compared")
+                            return
+                        variants = [p.with_suffix(".zip")]
+                    elif mode == "plain":
                         variants.append(p.with_suffix(""))
                     elif mode == "zip_csv":
                         variants += [p.with_suffix(".zip"), p.with_suffix("")]
@@ -396,12 +420,15 @@ class World:
                     elif mode == "zip_noext":
                         variants += [Path(str(p) + ".zip"),
                                      Path(str(p) + ".csv")]
-                    v = variants[0] if cs.flip("canon", 60) else \
+                    v = variants[0] if cs.flip("canon", 60) or \
+                        len(variants) == 1 else \
                         variants[cs.draw("variant", len(variants))]
                     farg = self.path_arg(v, "rd")
                     self.log.ev("read", lname, mode,
                                 str(farg).replace(str(self.root), "<ws>"))
                     df, com = csvmod.read_csv(farg)
+            except Violation:
+                raise
             except Exception as e:
                 raise Violation("read_failed", f"read_csv of {lname} written "
                                 f"in mode {mode} raised {e!r}", opkind)
@@ -409,6 +436,35 @@ class World:
         self.compared = True
         self.ctx.hit("probe.read_compared")
         self.ctx.hit("probe.read_" + mode)
+
+    def read_shadowed(self, csvmod, lname, rec, p, opkind):
+        """read_csv("x.csv") after write_csv(.., "x.csv", compress=False) and
+        a later write_csv(.., "x.csv", compress=True): the property asks for
+        the latest frame; the real code returns the stale plain file."""
+        sig = "C09/stale_plain_file_shadows_newer_zip"
+        farg = self.path_arg(p, "rd")
+        self.log.ev("read.shadowed", lname,
+                    str(farg).replace(str(self.root), "<ws>"))
+        with warnings.catch_warnings():
+            warnings.simplefilter("ignore")
+            try:
+                df, com = csvmod.read_csv(farg)
+            except Exception as e:
+                raise Violation("read_failed", f"read_csv of {lname} raised "
+                                f"{e!r}", opkind)
+        try:
+            compare(df, com, rec, f"{lname} (zip_csv after plain)", opkind)
+            self.compared = True
+            return
+        except Violation as v:
+            if not self.ctx.known(sig):
+                raise Violation("stale_plain_file_shadows_newer_zip",
+                                f"{lname}: read_csv by the .csv name returned "
+                                f"not the latest frame: {v.detail}", opkind)
+        # listed known finding: the real behaviour is 'the older plain file'
+        compare(df, com, rec["older"], f"{lname} (stale plain sibling)",
+                opkind)
+        self.compared = True
 
     def op_read(self, csvmod):
         if not self.store:
